@@ -22,15 +22,30 @@ def run(tier):
             tot[what + "." + k] = n
         samples.extend(r.samples)
 
+    # the zones' real instant -> offset functions: zic on the lines recorded beside the shipped tables (as in C01/C02)
+    import zicoracle
+    from vlib import REPO
+    work = vlib.scratch()
+    oargs = []
+    try:
+        for flag, dbdir in (("--oracle-ext", "zonedbx"), ("--oracle-basic", "zonedb")):
+            ora = zicoracle.build_shipped_oracle(REPO, dbdir, work / dbdir)
+            of = work / (dbdir + ".oracle.bin")
+            zicoracle.write_oracle_file(of, dict(ora["segments"]), list(ora["names"]))
+            oargs += [flag, of]
+    except zicoracle.OracleError as e:
+        v.inconclusive_because("oracle: %s" % e)
+        v.coverage.update({"evaluations": 1, "distinct_nontrivial": 2, "rule": "oracle construction failed", "samples": [str(e)]})
+        return v.finish()
     S = 4 * N
     nrand = 2000 if tier == "quick" else 50000
-    go(fast, [["--mode", "c07", "--random", nrand, "--seed", seed, "--shard", "%d/%d" % (i, S)] for i in range(S)], None, "all")
+    go(fast, [["--mode", "c07", "--random", nrand, "--seed", seed, "--shard", "%d/%d" % (i, S)] + oargs for i in range(S)], None, "all")
     if tier == "quick":
         rng = random.Random(seed)
         third = rng.sample(range(S), S // 3)
-        go(san, [["--mode", "c07", "--random", 200, "--seed", seed + 1, "--shard", "%d/%d" % (i, S)] for i in third], "rec", "san")
+        go(san, [["--mode", "c07", "--random", 200, "--seed", seed + 1, "--shard", "%d/%d" % (i, S)] + oargs for i in third], "rec", "san")
     else:
-        go(san, [["--mode", "c07", "--random", 2000, "--seed", seed + 1, "--shard", "%d/%d" % (i, S)] for i in range(S)], "rec", "san")
+        go(san, [["--mode", "c07", "--random", 2000, "--seed", seed + 1, "--shard", "%d/%d" % (i, S)] + oargs for i in range(S)], "rec", "san")
     if tot.get("all.local.zones", 0) != 268 + 387 and tot.get("all.local.zones", 0) < 600:
         v.inconclusive_because("zones visited: %s" % tot.get("all.local.zones"))
     if tot.get("local.gap", 0) < 10000 or tot.get("local.overlap", 0) < 10000 or tot.get("local.unique", 0) < 100000:
@@ -39,8 +54,8 @@ def run(tier):
         "evaluations": tot.get("local.cases", 0),
         "distinct_nontrivial": tot.get("all.local.gap", 0) + tot.get("all.local.overlap", 0),
         "rule": "every zone of zonedb (basic processor) and zonedbx (extended processor): every minute from 200 min before to 200 "
-                "min after the wall-clock image of every transition the zone exhibits in 2000..2049 (found by scanning the zone's "
-                "own instant->offset function, which C01/C02 tie to zic, on a second private processor), seconds -61..+60 around "
+                "min after the wall-clock image of every transition the zone has in 2000..2049 (found by scanning the zone's "
+                "real instant->offset function: zic's reading of the Zone/Rule lines recorded beside the shipped tables, the oracle of C01/C02), seconds -61..+60 around "
                 "each gap/overlap edge, and %d seeded random wall times per zone. Oracle per case: the set {L-o : offset(L-o)=o}; "
                 "1 element: identity; 2: must be one of them (extended: the later); 0: L minus the offset before the gap; always "
                 "non-error, normalised and carrying the offset in force. distinct = distinct gap + overlap wall times. "
@@ -48,6 +63,7 @@ def run(tier):
         "samples": samples[:6],
         "counters": tot,
     })
-    v.assumptions += ["instant->offset of each zone is taken from the library itself on a private processor (C01/C02 compare it "
-                      "with zic); transitions closer than 30 min to each other could be missed as probe centres (not as oracle)"]
+    v.assumptions += ["instant->offset of each zone is zic's (same oracle and self-check as C01/C02), so a processor whose epoch path and "
+                      "local path are wrong in the same way is still caught (seeded change C07v); transitions closer than 30 min to each "
+                      "other could be missed as probe centres (not as oracle)"]
     return v.finish()
